@@ -42,6 +42,7 @@ class Par:
 
     def __init__(self, run, n=8):
         self.run, self.pool, self.lock, self.golock = run, ThreadPoolExecutor(n), threading.Lock(), threading.Lock()
+        self.leaf = ThreadPoolExecutor(4)   # tasks started by a stage and awaited by it (they never wait themselves)
         self.futs = []
         prep = run._prep
 
@@ -72,6 +73,7 @@ class Par:
                 err = err or e
             i += 1
         self.pool.shutdown()
+        self.leaf.shutdown()
         mc = [s for s in self.run.cov["stages"] if s.get("stage") == "mc"]
         self.run.cov["states"] = sum(s["distinct"] for s in mc)
         self.run.cov["transitions"] = sum(s["generated"] for s in mc)
@@ -95,7 +97,7 @@ def validate(par, what, trace_path, tmod, tcfg, mmod, mcfg, ov, props, nontrivia
         raise Inconclusive("%s: the driver recorded nothing" % what)
     traces = split_traces(events)
     t0 = time.time()
-    fm = par.pool.submit(run.tlc_monitor, mmod, mcfg, trace_path, ov, 1200)
+    fm = par.leaf.submit(run.tlc_monitor, mmod, mcfg, trace_path, ov, 1200)
     res = run.tlc_trace(tmod, tcfg, trace_path, ov, timeout=1200)
     viol, mr = fm.result()
     log("[trace] %-26s %d traces %d events: conformance %s, monitor %s (%.0fs)" %
@@ -223,9 +225,9 @@ def fetcher_binding(par, thorough, results):
     # R/G: every edge of the state graphs with the reads of url and header as separate steps, forced through the gates.
     # quick: concurrent graph only from a redirecting registry (a registry that starts direct never makes a fetcher refresh)
     jobs = {}
-    g1 = par.pool.submit(fetcher_graph, par, "conc", "Fetcher_gen.cfg", {"MaxEnv": "3"} if thorough else {"Modes": '{"redir"}'},
+    g1 = par.leaf.submit(fetcher_graph, par, "conc", "Fetcher_gen.cfg", {"MaxEnv": "3"} if thorough else {"Modes": '{"redir"}'},
                          300 if thorough else 20, jobs, results)
-    g2 = par.pool.submit(fetcher_graph, par, "seq", "Fetcher_gen_seq.cfg", None if thorough else {"MaxOps": "1", "MaxEnv": "2"},
+    g2 = par.leaf.submit(fetcher_graph, par, "seq", "Fetcher_gen_seq.cfg", None if thorough else {"MaxOps": "1", "MaxEnv": "2"},
                          300 if thorough else 20, jobs, results)
     g1.result(), g2.result()
     jl = [jobs["conc"], jobs["seq"]]
